@@ -11,12 +11,16 @@ def is_unknown(el):
 def load(name, kind, v):
     try: return M.load_ref(name, kind, v)
     except M.MErr: return None
+def load_grp(el, v):
+    import reading_message  # noqa
+    try: return M.load_ref_tbl(el['name'], 'GROUPS' if el['cls']=='Group' else 'MESSAGES', v)
+    except M.MErr: return None
 def children_named(el, name):
     # el.children.get(child_name) -> proxy over indexes[NAME]; resolution through find_child_reference is case-insensitive
     return [c for c in el['children'] if c['name']==name.upper()]
 def check_known(el, ref, v, errs, parent):
     if ref is None:
-        ref = load(el['name'], el['cls'], v)
+        ref = load(el['name'], el['cls'], v) if el['cls'] not in ('Group','Message') else load_grp(el, v)
         if ref is None:
             errs.append(('Invalid', el['name'])); raise VCrash('TypeError')
     if ref[0] in ('sequence','choice'):
@@ -51,6 +55,14 @@ def check_known(el, ref, v, errs, parent):
 def resolvable(el, cname, v):
     """el.children.get(child_name) raises (swallowed) when the name cannot be resolved by find_child_reference"""
     if el['cls']=='SubComponent': return False
+    if el['cls'] in ('Group','Message'):
+        if any(c['name']==cname for c in el['children']): return True
+        sbn = el['st']['sbn'] if el.get('st') and el['st']['sbn'] is not None else None
+        if sbn is not None and cname in sbn: return True
+        if M.valid_z_segment_name(cname): return True
+        lib=M.lib(v)
+        if cname not in lib.SEGMENTS and cname not in lib.GROUPS: return False
+        return not (el.get('lvl')==1)
     sbn = el['st']['sbn'] if el.get('st') and el['st']['sbn'] is not None else None
     if any(c['name']==cname for c in el['children']): return True
     if el['cls']=='Segment':
@@ -77,5 +89,6 @@ def is_valid(el, ref, v, errs, parent):
     return check_known(el, ref, v, errs, parent)
 def validate(el, v):
     errs=[]
+    if el.get('st') is None: raise VCrash('AttributeError')     # Element.validate reads self.reference
     is_valid(el, el['st']['reference'], v, errs, None)
     return errs
